@@ -3,7 +3,7 @@
    Models: Model/Ensemble.v (orchestration.adjust_tasks, observation.revise_namespaces),
            Model/Watch.v (infinite_watch/streaming_block/continuous_watch/watch_objs + the API server). *)
 From Coq Require Import ZArith List String Bool.
-From KV Require Import Model.Ensemble Model.Watch Proofs.Ensemble Proofs.Watch Proofs.WatchWorld.
+From KV Require Import Model.Ensemble Model.Watch Proofs.Ensemble Proofs.EnsembleToggles Proofs.Watch Proofs.WatchWorld.
 Import ListNotations.
 Open Scope Z_scope.
 
@@ -100,6 +100,46 @@ Theorem C19_namespace_insights : forall nss e,
   (forall n, n <> Some (ne_name e) -> (In n (revise_one nss e) <-> In n nss)).
 Proof. exact namespace_insights. Qed.
 Print Assumptions C19_namespace_insights.
+
+(* ======================= the conflict toggles: paused only by a CURRENT peering ======================= *)
+
+(* after every history of adjustments operator_paused holds exactly the toggles of conflicts_found, these are
+   exactly one per current peering key: no toggle of a removed namespace / peering CRD survives *)
+Theorem C19_toggles_exact : forall hs,
+  let t := trun_adjust hs in
+  (forall f, In f (pset t) <-> In f (flags t)) /\
+  (forall k, In k (peerings (run_adjust hs)) <-> exists n, In (k, n) (pset t)) /\
+  (forall f g, In f (pset t) -> In g (pset t) -> fst f = fst g -> f = g).
+Proof. exact toggles_exact. Qed.
+Print Assumptions C19_toggles_exact.
+
+Theorem C19_removed_key_no_toggle : forall hs i f,
+  In f (pset (trun_adjust (hs ++ [i]))) -> redundant i (fst f) = false.
+Proof. exact removed_key_no_toggle. Qed.
+Print Assumptions C19_removed_key_no_toggle.
+
+(* hence, whatever the toggles' states: the operator is paused iff the mandatory peering CRD is missing or some
+   CURRENT peering reports a conflict; the served pairs are watched otherwise (streaming_block lets through) *)
+Theorem C19_paused_iff_current_blocker : forall hs mandatory i onk,
+  paused_on mandatory i onk (trun_adjust hs) = blocked_by_current mandatory i onk (trun_adjust hs).
+Proof. exact paused_iff_current_blocker. Qed.
+Print Assumptions C19_paused_iff_current_blocker.
+
+(* the task maps of the model with toggles are those of the model without *)
+Theorem C19_toggles_conservative : forall hs, te (trun_adjust hs) = run_adjust hs.
+Proof. exact trun_base. Qed.
+Print Assumptions C19_toggles_conservative.
+
+Example C19_toggle_dropped_with_namespace :
+  let rp := {| rid := 101; rns := true |} in
+  let i1 := {| watched := [r_spaced]; namespaces := [Some "ns1"; Some "ns2"]%string; peering := [rp] |} in
+  let i2 := {| watched := [r_spaced]; namespaces := [Some "ns1"%string]; peering := [rp] |} in
+  togs_same (pset (trun_adjust [i1])) [((rp, Some "ns1"%string), 0%nat); ((rp, Some "ns2"%string), 1%nat)] = true /\
+  paused_on false i1 [(rp, Some "ns2"%string)] (trun_adjust [i1]) = true /\
+  pset (trun_adjust [i1; i2]) = [((rp, Some "ns1"%string), 0%nat)] /\
+  paused_on false i2 [(rp, Some "ns2"%string)] (trun_adjust [i1; i2]) = false.
+Proof. exact toggle_example. Qed.
+Print Assumptions C19_toggle_dropped_with_namespace.
 
 (* ======================= continuity within one watch ======================= *)
 
